@@ -1367,14 +1367,18 @@ def ti_part(run, r, runner, n):
     # parse TID lines per case
     cur = None
     got = {}
+    aux = {}
     okc = {}
     for l in iout:
         if l.startswith("echo CASE"):
             cur = int(l.split()[2]); got[cur] = []; okc[cur] = True
         elif cur is not None and l.startswith("TID "):
-            got[cur].append([(int(t.split(":")[0]), float.fromhex(t.split(":")[1])) for t in l.split()[3:]])
+            d_ = parse_fields(l)
+            got[cur].append([(int(t.split(":")[0]), float.fromhex(t.split(":")[1])) for t in d_["G"].split(",") if t])
+            aux.setdefault(cur, []).append((float.fromhex(d_["X"]), float.fromhex(d_["TF"]), float.fromhex(d_["FB"])))
         elif cur is not None and (l.startswith("CONFIG") or l.startswith("LOAD") or l.startswith("SAVE")) and "err=ok" not in l:
             okc[cur] = False
+    tie_lines, tie_where = [], []
     for k, c in enumerate(cases):
         run.dist("colvarbias_ti:%s" % ("same-step" if c["same"] else "lagged"))
         g = got.get(k, [])
@@ -1406,6 +1410,21 @@ def ti_part(run, r, runner, n):
                 bad = True
                 break
         run.count("ti%d" % k, sum(cnt) >= 3)
+        # tie: the extracted estimator model (coq/C06/TIEstimator.v) on the values, total forces and bias forces the implementation reports
+        ax = aux.get(k, [])
+        if len(ax) == len(c["events"]):
+            tie_lines.append("TIRUN %d %s %s 4 0 %d %s" % (1 if c["same"] else 0, hx(0.0), hx(1.0), len(ax),
+                                                         " ".join("%s %s %s %s" % (typ if typ == "S" else typ, hx(x_), hx(tf), hx(fb)) for (typ, _, _), (x_, tf, fb) in zip(c["events"], ax))))
+            tie_where.append((k, g, rp))
+    rc, mout, e = V.run_lines(runner.model, tie_lines)
+    if len(mout) != len(tie_where):
+        run.mismatch("colvarbias_ti", "model run", len(tie_where), len(mout))
+    for (k, g, rp), line in zip(tie_where, mout):
+        mg = [[(int(t.split(":")[0]), float.fromhex(t.split(":")[1])) for t in part.split()] for part in line.split(" ; ")]
+        for j, (a, b) in enumerate(zip(g, mg)):
+            if [h[0] for h in a] != [h[0] for h in b] or not all(close(x[1], y[1]) for x, y in zip(a, b)):
+                run.mismatch("colvarbias_ti", {"case": rp["case"], "event": j}, a, b)
+                break
 
 
 def setup():
